@@ -24,6 +24,9 @@ ASSUMPTION_TEXT = {
 }
 
 
+_WITNESS_CACHE: dict = {}
+
+
 def _san(s):
     return re.sub(r"[^A-Za-z0-9_.-]+", "_", s)[:120]
 
@@ -100,8 +103,28 @@ def finish(pid, tier, seed, t0, results, lemma_results, standin_results, known, 
                     violations.append(("obligation", r, o))
                 nf += 1
             else:
-                total += 1
-                undecided.append(f"{o['id']}#p{o['path']} ({o['backend']}: {o['detail']})")
+                # not discharged and not refuted by a solver: look for a native failing input of the function (bounded search)
+                code = None
+                try:
+                    import bounded
+
+                    key = ("witness", r["target"])
+                    if key not in _WITNESS_CACHE:
+                        _WITNESS_CACHE[key] = bounded.native_witness(r["target"], o)
+                    code = _WITNESS_CACHE[key]
+                except Exception:
+                    code = None
+                if code:
+                    o = dict(o, status="unknown+native-witness", native_code=code)
+                    k = match_known(known, pid, ob_id=o["id"])
+                    if k:
+                        known_hits.append((k, o))
+                    else:
+                        violations.append(("obligation", r, o))
+                    nf += 1
+                else:
+                    total += 1
+                    undecided.append(f"{o['id']}#p{o['path']} ({o['backend']}: {o['detail']})")
         functions.append(r["target"])
         per_function.append(dict(function=r["target"], file=r["file"].replace("/repo/", ""), lines=r["span"], source_sha256_16=r["src_hash"],
                                  paths=r["paths"], obligations_for_property=len(obs), discharged=nd, refuted=nf, wall_s=r["wall"],
@@ -187,11 +210,12 @@ def finish(pid, tier, seed, t0, results, lemma_results, standin_results, known, 
             if key in reported:
                 continue
             reported.add(key)
-            code = None
+            code = o.get("native_code")
             try:
                 import bounded
 
-                code = bounded.native_witness(r["target"], o)
+                if code is None:
+                    code = bounded.native_witness(r["target"], o)
             except Exception as ex:  # the witness search must never turn into an alarm of its own
                 code = None
             hdr = dict(property=pid, failed_obligation=o["id"], path=o["path"], function=r["target"], verdict=o["status"], backend=o["backend"],
